@@ -39,6 +39,12 @@ def daemon_specs(tier, seed):
                 c = simple_cert("c%d" % len(specs), key_type=kt, kp_reuse=reuse)
                 specs.append(flowcheck.prepare(dict(tag="C02/s%03d" % len(specs), certs=[c], steps=steps, account_hooks=file_hooks,
                                                     meta={"family": "chain lengths over renewals", "chain_lens": seq, "key_type": kt, "kp_reuse": reuse})))
+    # the chain written in other ways a CA may choose: what is stored is what was sent, byte for byte
+    for style in ("crlf", "nofinal", "blank_between", "text_before"):
+        c = simple_cert("p%d" % len(specs))
+        specs.append(flowcheck.prepare(dict(tag="C02/s%03d" % len(specs), certs=[c], account_hooks=file_hooks, endpoints={"A": {"ca": {"pem_style": style, "chain_len": 2}}},
+                                            steps=[("run", {"attempts": 1}), ("call", set_chain(3)), ("run", {"attempts": 1})],
+                                            meta={"family": "chain written in another PEM style", "style": style})))
     # a usable key of another type than configured is on disk (key_type edited, file name format without the key type)
     for kt in ("ecdsa_p256", "rsa2048"):
         for reuse in (False, True):
